@@ -18,7 +18,7 @@ CHECKS.update({
    technique=TECH+"sequential operation histories on a simulated clock, differential against an executable reference model", design="4 C12"),
  "C05": dict(level="exploration",
    text="Nonce histories per identity (equal, decreasing, boundary, ahead-of-clock, replays of every accepted nonce) with clock advances to 40 min and close/reopen of the badger store, against a never-expiring high-water-mark model; concurrent duplicate submissions interleaved inside the badger transaction (real ErrConflict) with an at-most-once count and a porcupine linearizability check; the RPC-level path is exercised by the world scenarios.",
-   note="Marks are modelled as never expiring; the exact boundary instant now-15min follows the code (<=). Inside the memory driver's critical section no interleaving is possible under the cooperative scheduler.",
+   note="c05_window_edge lets the clock pass the end of the freshness window while a replay is inside the store (yield point at the start of the nonce transaction); c13_migrate replays a nonce accepted before a format upgrade. Marks are modelled as never expiring; the exact boundary instant now-15min follows the code (<=). Inside the memory driver's critical section no interleaving is possible under the cooperative scheduler.",
    technique=TECH+"nonce histories with clock jumps and store restarts vs a reference model; racing duplicates at in-transaction yield points checked with porcupine", design="4 C05"),
  "C11": dict(level="exploration",
    text="Keep-alive histories of a node and its peers with gaps at and around the 120 s expiry window, changing reports (unknown ids, duplicates, itself), reconnects, on both drivers against the reference model, plus the direct invariant that a peer that keeps checking in and keeps being reported is never evicted.",
@@ -26,7 +26,7 @@ CHECKS.update({
    technique=TECH+"keep-alive histories on a simulated clock vs a reference model of peer tracking", design="4 C11"),
  "C13": dict(level="fault_enumeration",
    text="For every generated history, a crash image of the database directory is taken at every in-transaction yield point of every operation and after every operation, reopened (sometimes with the exact production options) and compared with the model before/after the interrupted operation; a concurrent reader checks isolation while the writer is parked; close+reopen after every operation; old on-disk formats 0/1/2 are synthesised and opened through the driver with a crash image inside the migration.",
-   note="Process kill is modelled as a copy of the database directory while every goroutine is parked (what the page cache holds, as after SIGKILL); disk-level torn/lost writes and ENOSPC are out of reach (badger owns its file I/O). Crash points are enumerated per history; histories are sampled.",
+   note="Process kill is modelled as a copy of the database directory while every goroutine is parked (what the page cache holds, as after SIGKILL), one image in three additionally with the last value-log write torn (cut strictly inside the bytes the interrupted commit appended; the reopen is first tried in a child process); lost or reordered sectors behind an acknowledged write and ENOSPC inside badger are out of reach (badger owns its file I/O). Old-format databases are generated with up to 260 identities with 128-digit ids. Crash points are enumerated per history; histories are sampled.",
    technique=TECH+"crash-image enumeration at in-transaction yield points (hook H1) + restart, refinement against a reference model", design="4 C13"),
 })
 
